@@ -224,7 +224,7 @@ def run(rng, tier, res=None):
         res.add_case(line, nontrivial=(n >= 2)); res.hit("convert"); res.hit("convert_n1" if n == 1 else "convert_n>1")
 
     # ---------------- translated converters / load_json / parse_loader executed against the real ones ----------------
-    # (Gen/ConvImp.lean, Gen/ParseImp.lean through DriverGen.lean: validates the trusted reading Model/PyStruct.lean, PyMeas.lean)
+    # (Gen/ConvImp.lean, Gen/ParseImp.lean through DriverConv.lean: validates the trusted reading Model/PyStruct.lean, PyMeas.lean)
     class _Rec:
         """stands in for the module `np` / `j` inside converter.py while one converter runs: records what is written."""
         def __init__(self, real):
@@ -244,7 +244,7 @@ def run(rng, tier, res=None):
         return "f" + str(f32bits(float(v)))
 
     glines, gobs, gmetas = [], [], []
-    for case in range(40 * scale):
+    for case in range(120 * scale):
         n = rng.choice([0, 1, 2, 3, 5])
         d = rng.choice([0, 1, 2, 4])
         kind = rng.choice(["ok", "ok", "ok", "trunc", "trail", "negn", "negd", "short_header", "bigid"])
@@ -308,7 +308,7 @@ def run(rng, tier, res=None):
         res.add_case(gl, nontrivial=(n >= 2)); res.hit("gen_conv_" + kind)
         if parts[0] == "ERR":
             res.hit("gen_conv_raises")
-    for case in range(60 * scale):
+    for case in range(150 * scale):
         r = rng.randint(0, 6)
         c = rng.choice([1, 2, 3, 4])
         if r == 0:
@@ -332,10 +332,10 @@ def run(rng, tier, res=None):
         gl = f"gparse {r} {c} {ints([v for row in M for v in row])}".replace("  ", " ").rstrip()
         glines.append(gl); gobs.append(ob); gmetas.append({"kind": "parse_" + kind, "matrix": M})
         res.add_case(gl, nontrivial=(r >= 2)); res.hit("gen_parse_" + kind); res.hit("gen_parse_raises" if ob == "ERR" else "gen_parse_returns")
-    gmodel = run_driver(glines, driver="DriverGen.lean", soft=True)
+    gmodel = run_driver(glines, driver="DriverConv.lean", soft=True)
     if gmodel is None:
         res.disagreements.append({"stream": "stream", "case": 0, "kind": "gconv", "segments": [0, 1, 2, 3], "input": "(all)",
-                                  "impl": "-", "model": "DriverGen.lean does not run: a generated file it imports was not translated", "meta": {}})
+                                  "impl": "-", "model": "DriverConv.lean does not run (a generated file it imports was not translated?): " + str(getattr(run_driver, "last_error", ""))[-600:], "meta": {}})
     else:
         for k, (l, a, b) in enumerate(zip(glines, gobs, gmodel)):
             if a != b:
